@@ -44,6 +44,7 @@ type Contract struct {
 	NoInline bool
 	Iface    bool // contract of an interface method (key = pkg.Iface.Method)
 	Splits   []SplitSpec // case splits applied to every ensures obligation
+	Protects []CExpr     // objects whose fields survive every havoc inside this function (ownership assumption)
 	PureIf   CExpr       // when this holds in the pre-state the call modifies nothing (frame is conditional)
 	Loops    map[int]*LoopSpec
 	Props    []string // property ids that own this function's obligations (informational)
@@ -107,7 +108,7 @@ var clauseKeywords = map[string]bool{
 	"ghost": true, "spec": true, "global-invariant": true, "func": true, "extern": true, "iface": true,
 	"requires": true, "ensures": true, "modifies": true, "pure": true, "trusted": true, "inline": true,
 	"noinline": true, "loop": true, "invariant": true, "decreases": true, "lemma": true, "assume": true,
-	"show": true, "props": true, "loopmodifies": true, "split": true, "pureif": true, "immutable": true,
+	"show": true, "props": true, "loopmodifies": true, "split": true, "pureif": true, "immutable": true, "protects": true,
 }
 
 // logical lines: keyword + rest (continuations joined)
@@ -405,6 +406,17 @@ func (cs *Contracts) LoadFile(path, pkgPath string) error {
 				cur.Inline = true
 			case "noinline":
 				cur.NoInline = true
+			}
+		case "protects":
+			if cur == nil {
+				return fail(l, "protects outside function")
+			}
+			for _, part := range splitTop(l.rest) {
+				pe, err := ParseCExpr(part)
+				if err != nil {
+					return fail(l, "%v", err)
+				}
+				cur.Protects = append(cur.Protects, pe)
 			}
 		case "pureif":
 			if cur == nil {
